@@ -168,17 +168,26 @@ def leafFactory (s : RField) (kind : PKind) (t : Target) : Outcome Unit :=
 def itemFactory (s : RField) (kind : PKind) (t : Target) : Outcome Unit :=
   if mutableSchema s then messageFactory s else leafFactory s kind t
 
+/-- the type switches of `newMessageArrayField` / `newLeafArrayField` and `newMessageMapField` /
+`newLeafMapField`: arrays and maps exist of objects, oneofs, scalars and enums only -/
+def collectionItem : RField → Outcome Unit
+  | .object _ _ => .ok ()
+  | .oneof _ => .ok ()
+  | .scalar .. => .ok ()
+  | .enum _ => .ok ()
+  | _ => .err "unsupported array item schema / unsupported schema type"
+
 /-- `j5reflect.buildProperty`: the checks made when a value of the property is built -/
 def reflectField (f : FieldD) (s : RField) : Outcome Unit :=
   match s with
   | .array item =>
     if f.card != .list then .err "Reflection Bug: ArrayField is not a list"
-    else itemFactory item f.kind f.target
+    else (itemFactory item f.kind f.target).bind fun _ => collectionItem item
   | .map item =>
     if f.card != .map then .err "MapField is not a map"
     else
       match f.mapVal with
-      | some (vk, vt, _) => itemFactory item vk vt
+      | some (vk, vt, _) => (itemFactory item vk vt).bind fun _ => collectionItem item
       | none => .panic "map field without value descriptor"
   | _ => itemFactory s f.kind f.target
 
